@@ -27,8 +27,7 @@ contract('Source._finish_cycle', props=['C02', 'C06', 'C08'], args={}, modular=T
          modifies=['self._output', 'self._waiting_for_downstream_space', '*._generated_part_counter', 'Asset._id_counter',
                    '$trace'])
 
-ghost_after('Source._pass_part_downstream', '<entry>', g_taken='-1', g_val='0')
-ghost_after('Source._pass_part_downstream', 'supplied_part_value = self._output.value', g_val='supplied_part_value')
+ghost_after('Source._pass_part_downstream', '<entry>', g_taken='-1')
 contract('Source._pass_part_downstream', props=['C02', 'C06', 'C15', 'C16', 'C03'], args={}, requires=S_READY,
          ensures={
              'C02/no_supply_beyond_the_part_budget':
@@ -38,8 +37,8 @@ contract('Source._pass_part_downstream', props=['C02', 'C06', 'C15', 'C16', 'C03
                  'self._produced_parts == old(self._produced_parts) + ite(g_taken >= 0, 1, 0) and '
                  'implies(g_taken < 0, self._output is old(self._output))',
              'C16/cost_is_the_value_the_part_had_when_it_left':
-                 'self._cost_of_produced_parts == old(self._cost_of_produced_parts) + ite(g_taken >= 0, g_val, 0) and '
-                 'implies(g_taken >= 0, g_val == old(asset_value(self._output)))',
+                 'self._cost_of_produced_parts == old(self._cost_of_produced_parts) + '
+                 '    ite(g_taken >= 0, old(asset_value(self._output)), 0)',
              'C15/one_supplied_record_per_part_supplied':
                  'implies(g_taken >= 0, any(trace_kind(i) == fn_id("add_datapoint") and trace_ref(i, 0) == "supplied_new_part" and '
                  '                          trace_real(i, 0) == self._env._now for i in range(old(trace_len()), trace_len())))',
